@@ -34,7 +34,7 @@ from fractions import Fraction
 import common, staticgeom as sg
 from common import cnat, cZ, cQ, cN, clist, copt
 
-IMPORTS = "From TP Require Import Model.StaticCluster Model.StaticPairCorr."
+IMPORTS = "From TP Require Import Model.StaticCluster Model.StaticPairCorr Model.StaticPairCorrSel."
 TRANSLATOR = os.path.join(common.VERIF, 'tools', 'py2coq_static.py')
 GEN = os.path.join(common.COQ, 'Gen', 'static_geom.v')
 
@@ -567,15 +567,53 @@ def gen_gr_case(rng, tier, ndim=None):
     cutoff = rng.choice([1.0, 1.5, 2.0, 2.5, 3.0, 4.0, float(L), L * 1.5]) if ndim == 2 else rng.choice([1.0, 1.5, 2.0, 3.0, float(L)])
     dr = rng.choice([0.25, 0.5, 0.5, 1.0, 2.0])
     nd = rng.choice([None, None, '1/4', '3/2', '1/50'])
-    return dict(ndim=ndim, pts=pts, boundary=boundary, cutoff=cutoff, dr=dr, ndensity=nd,
-                handle_edge=rng.random() < 0.8, max_rel=rng.choice([None, 'auto', 'auto', 'auto', 'auto']), kind=kind)
+    c = dict(ndim=ndim, pts=pts, boundary=boundary, cutoff=cutoff, dr=dr, ndensity=nd,
+             handle_edge=rng.random() < 0.8, max_rel=rng.choice([None, 'auto', 'auto', 'auto', 'auto']), kind=kind)
+    r = rng.random()
+    if r < 0.3:
+        # reference particles given as p_indices: 'refs' lists them as rows of pts (all inside the boundary); a row may be
+        # listed twice (fraction < 1 draws with replacement)
+        ins = inside_rows(c, pts, boundary)
+        if ins:
+            m = rng.randint(1, max(1, len(ins) - 1))
+            c['refs'] = [rng.choice(ins) for _ in range(m)] if rng.random() < 0.3 else rng.sample(ins, min(m, len(ins)))
+    elif r < 0.4:
+        # fraction < 1: the implementation draws the reference particles with numpy's global generator; the harness seeds it
+        c['fraction'] = rng.choice([0.25, 0.5, 0.75])
+        c['npseed'] = rng.randint(0, 2 ** 31 - 1)
+    return c
 
 
-def run_gr_impl(c, pts=None, boundary='same'):
+def inside_rows(c, pts, boundary):
+    """rows of pts that survive the boundary filter, in order"""
+    if boundary is None:
+        return list(range(len(pts)))
+    return [i for i, p in enumerate(pts) if all(F(boundary[k][0]) <= F(float(p[k])) <= F(boundary[k][1]) for k in range(c['ndim']))]
+
+
+def p_indices_of(c, pts, boundary, refs):
+    """the p_indices argument (positions in the FILTERED table) that selects rows refs of pts"""
+    ins = inside_rows(c, pts, boundary)
+    pos = {i: k for k, i in enumerate(ins)}
+    return [pos[i] for i in refs]
+
+
+def drawn_refs(c, pts, boundary):
+    """fraction < 1: rows of pts the implementation will draw after np.random.seed(npseed)"""
+    ins = inside_rows(c, pts, boundary)
+    st = np.random.get_state()
+    np.random.seed(c['npseed'])
+    k = np.random.randint(0, len(ins), int(c['fraction'] * len(ins)))
+    np.random.set_state(st)
+    return [ins[int(i)] for i in k]
+
+
+def run_gr_impl(c, pts=None, boundary='same', refs='same'):
     import trackpy as tp
     names = ['x', 'y', 'z'][:c['ndim']]
     pts = c['pts'] if pts is None else pts
     boundary = c['boundary'] if boundary == 'same' else boundary
+    refs = c.get('refs') if refs == 'same' else refs
     df = pd.DataFrame({nm: [float(p[k]) for p in pts] for k, nm in enumerate(names)})
     f = tp.pair_correlation_2d if c['ndim'] == 2 else tp.pair_correlation_3d
     kw = dict(dr=c['dr'], handle_edge=c['handle_edge'])
@@ -585,6 +623,12 @@ def run_gr_impl(c, pts=None, boundary='same'):
         kw['boundary'] = tuple(v for b in boundary for v in b)
     if c['max_rel'] is not None:
         kw['max_rel_ndensity'] = c['max_rel']
+    if refs is not None:
+        pi = p_indices_of(c, pts, boundary, refs)
+        kw['p_indices'] = pi if c.get('p_indices_as', 'list') == 'list' else np.array(pi, dtype=np.intp)
+    elif c.get('fraction') is not None:
+        kw['fraction'] = c['fraction']
+        np.random.seed(c['npseed'])
     try:
         edges, g = f(df, c['cutoff'], **kw)
     except (RuntimeError, MemoryError) as e:
@@ -613,7 +657,15 @@ def gr_reference(c):
     if n <= 1 or ext == 0:
         return 'degenerate: fewer than two particles in the box or flat box'
     rho = Fraction(c['ndensity']) if c['ndensity'] is not None else Fraction(n - 1) / ext
-    norm = rho * n * F(c['dr'])
+    sel = None
+    if c.get('refs') is not None:
+        sel = p_indices_of(c, c['pts'], c['boundary'], c['refs'])
+    elif c.get('fraction') is not None:
+        sel = p_indices_of(c, c['pts'], c['boundary'], drawn_refs(c, c['pts'], c['boundary']))
+        if not sel:
+            return 'degenerate: fraction selects no particle'
+    refs = feat if sel is None else [feat[i] for i in sel]
+    norm = rho * len(refs) * F(c['dr'])
     if norm == 0:
         return 'degenerate: zero density'
     c2 = F(c['cutoff']) ** 2
@@ -622,7 +674,7 @@ def gr_reference(c):
     sum_w = 0.0
     sum_err = 0.0
     npairs = 0
-    for p in feat:
+    for p in refs:
         walls = tuple(v for k in range(ndim) for v in (p[k] - box[k][0], box[k][1] - p[k]))
         for q in feat:
             d2 = sum((a - b) ** 2 for a, b in zip(p, q))
@@ -654,7 +706,7 @@ def gr_reference(c):
                 sum_w += 1.0 / arc
                 sum_err += err / (arc * arc)
     tol = 4 * (sum_err + sum_w * 2.0 ** -40) / float(norm) + 2.0 ** -100
-    return dict(feat=feat, box=box, n=n, table=table, tol=tol, npairs=npairs, norm=norm)
+    return dict(feat=feat, box=box, n=n, table=table, tol=tol, npairs=npairs, norm=norm, sel=sel, refs=refs)
 
 
 def base_estimate(c, ref, mr):
@@ -683,10 +735,12 @@ def gr_term(c, ref, g):
     tbl = "(%s : arc_table)" % clist(["((%s, %s), %s)" % (cQ(d2), cQl(w), "(None : option Q)" if a is None else "(Some %s)" % cQ(1 / F(1.0 / a)))
                                       for (d2, w), (a, e) in ref['table'].items()])
     out = clist(["(None : option Q)" if not math.isfinite(v) else "(Some %s)" % cQ(F(v)) for v in g])
-    return "(%s, %s, %s, %s, %s, %s, %s, %s, %s)" % (cnat(c['ndim']), bd, pts, nd, cQ(F(c['cutoff'])), cQ(F(c['dr'])), tbl, out, cQ(F(ref['tol'])))
+    sel = "(None : option (list nat))" if ref.get('sel') is None else "(Some %s)" % ("(@nil nat)" if not ref['sel'] else clist([cnat(i) for i in ref['sel']]))
+    return "(%s, %s, %s, %s, %s, %s, %s, %s, %s, %s)" % (cnat(c['ndim']), bd, pts, nd, cQ(F(c['cutoff'])), cQ(F(c['dr'])), tbl, out, cQ(F(ref['tol'])), sel)
 
 
-GR_FUNC = "fun c => match c with (dim, bd, pts, nd, cutoff, dr, tbl, out, tol) => check_gr dim bd pts nd cutoff dr tbl out tol end"
+GR_FUNC = ("fun c => match c with (dim, bd, pts, nd, cutoff, dr, tbl, out, tol, sel) => match sel with None => check_gr dim bd pts nd cutoff dr tbl out tol "
+           "| Some idx => check_gr_sel dim bd pts idx nd cutoff dr tbl out tol end end")
 
 
 def expected_refusal(c, ref):
@@ -694,7 +748,7 @@ def expected_refusal(c, ref):
     mr = 10 if c['max_rel'] is None else c['max_rel']
     k = int(base_estimate(c, ref, mr))
     c2 = F(c['cutoff']) ** 2
-    most = max(sum(1 for q in ref['feat'] if sum((a - b) ** 2 for a, b in zip(p, q)) < c2) for p in ref['feat'])
+    most = max(sum(1 for q in ref['feat'] if sum((a - b) ** 2 for a, b in zip(p, q)) < c2) for p in ref['refs'])
     return k, most
 
 
@@ -727,7 +781,7 @@ def eval_gr(chk, cases, rng=None, metamorphic=True):
         edges, g = run_gr_impl(c)
         if g is None:
             k, most = expected_refusal(c, ref)
-            if edges == ('refused', 'MemoryError') and ref['n'] * k > 1e8:
+            if edges == ('refused', 'MemoryError') and len(ref['refs']) * k > 1e8:
                 chk.tally('g(r) refused as documented (distance array too large)')
             elif edges == ('refused', 'RuntimeError') and most >= k:
                 chk.tally('g(r) refused as documented (neighbour estimate exceeded)')
@@ -750,16 +804,24 @@ def eval_gr(chk, cases, rng=None, metamorphic=True):
             for what, pts2, b2 in (('translation', [[v + t[k] for k, v in enumerate(p)] for p in c['pts']],
                                     None if c['boundary'] is None else [[lo + t[k], hi + t[k]] for k, (lo, hi) in enumerate(c['boundary'])]),
                                    ('permutation', [c['pts'][i] for i in order], c['boundary'])):
-                e2, g2 = run_gr_impl(c, pts2, b2)
+                if c.get('fraction') is not None:
+                    continue          # a random draw of reference particles: another table order means another draw
+                refs2 = 'same'
+                if what == 'permutation' and c.get('refs') is not None:
+                    newpos = {old: new for new, old in enumerate(order)}
+                    refs2 = [newpos[i] for i in c['refs']]          # the same particles, where they stand now
+                    rng.shuffle(refs2)
+                e2, g2 = run_gr_impl(c, pts2, b2, refs2)
                 msg = 'raised %s' % (e2,) if g2 is None else compare_g(g, g2)
                 if msg:
                     chk.violation('pair_correlation:%s-invariance' % what, 'g(r) changes under %s of the particles: %s' % (what, msg),
-                                  dict(kind='gr-meta', what=what, case=c, t=t, order=order))
+                                  dict(kind='gr-meta', what=what, case=c, t=t, order=order, refs2=None if refs2 == 'same' else refs2))
                 chk.tally('g(r) metamorphic ' + what)
     res = common.coq_eval_lists(chk.work, IMPORTS, GR_FUNC, terms, tag='gr', shard=5)
     for (c, ref, g), r in zip(kept, res):
         chk.count(('gr', c), ref['npairs'] >= 4)
         chk.tally('g(r) %dD %s edge handling, boundary %s' % (c['ndim'], 'with' if c['handle_edge'] else 'without', 'given' if c['boundary'] else 'default'))
+        chk.tally('g(r) reference particles: ' + ('p_indices' if c.get('refs') is not None else 'fraction < 1 (seeded draw)' if c.get('fraction') is not None else 'all'))
         if any(a is None for a, e in ref['table'].values()):
             chk.tally('g(r) case with a vanishing arc (NaN weight)')
         if r != 0:
@@ -1091,7 +1153,7 @@ def replay(chk, path):
             b2 = None if c['boundary'] is None else [[lo + t[k], hi + t[k]] for k, (lo, hi) in enumerate(c['boundary'])]
         else:
             pts2, b2 = [c['pts'][i] for i in r['order']], c['boundary']
-        e2, g2 = run_gr_impl(c, pts2, b2)
+        e2, g2 = run_gr_impl(c, pts2, b2, r['refs2'] if r.get('refs2') is not None else 'same')
         chk.count(('gr-meta', c), True)
         print('replay: g(r) original', g1, '\nreplay: g(r) after %s' % r['what'], g2)
         msg = ('raised %s' % (e2,)) if g2 is None or g1 is None else compare_g(g1, g2)
